@@ -82,6 +82,7 @@ def run(ctx):
 
     K = 3 + ctx.s("cfg").draw(4)
     orders = set()
+    ctx.merge_foralls = ctx.s("cfg").draw(3) == 0  # the parsed model is edited through the object API (same meaning)
     for k in range(K):
         if k:
             ctx.new_epoch()
@@ -197,7 +198,10 @@ def run(ctx):
 
 def lib(ctx, W, S, tag):
     try:
-        return C.lib_world(ctx, W, S, tag=tag)
+        d, p, s0 = C.lib_world(ctx, W, S, tag=tag)
+        if getattr(ctx, "merge_foralls", False):
+            C.merge_foralls(ctx, d)
+        return d, p, s0
     except Exception as e:
         raise Violation("C03/generated-input-rejected", "DomainParser/ProblemParser",
                         f"{type(e).__name__}: {e}")
